@@ -1,6 +1,7 @@
 package props
 
 import (
+	"bytes"
 	"encoding/binary"
 	"encoding/json"
 	"fmt"
@@ -12,6 +13,7 @@ import (
 
 	cose "github.com/veraison/go-cose"
 
+	rc "verifharness/refcbor"
 	"verifharness/refcose"
 	"verifharness/stats"
 )
@@ -189,12 +191,123 @@ func writeInflightC06(c *c06ConcCase) {
 	cb, _ := json.Marshal(c)
 	rf := replayFile{Property: "C06", Kind: "c06conc", Key: "crash/concurrent-decoding", Message: "in-flight case when the process ended (the Go runtime reported concurrent map access inside a decoder)", Case: cb}
 	b, _ := json.Marshal(rf)
+	if p := os.Getenv("VERIF_INFLIGHT"); p != "" {
+		os.MkdirAll(filepath.Dir(p), 0o755)
+		os.WriteFile(p, b, 0o644)
+		return
+	}
 	os.MkdirAll(dir, 0o755)
 	os.WriteFile(filepath.Join(dir, fmt.Sprintf("C06-inflight-%s.json", shardID())), b, 0o644)
 }
 
 func clearInflightC06() {
+	if p := os.Getenv("VERIF_INFLIGHT"); p != "" {
+		os.Remove(p)
+		return
+	}
 	if dir := os.Getenv("VERIF_REPLAY_DIR"); dir != "" {
 		os.Remove(filepath.Join(dir, fmt.Sprintf("C06-inflight-%s.json", shardID())))
 	}
+}
+
+// ---------------------------------------------------------------------------
+// duplicate labels of every spelling in every bucket and layer: refused with an
+// error (the error value itself is rendered, too: it is what callers log)
+
+type c06DupCase struct {
+	Layer  string `json:"layer"`  // sign1, untagged, sign-body, signer, countersignature, nested-countersignature, key, protected, unprotected
+	Bucket string `json:"bucket"` // P, U
+	Label  string `json:"label"`  // int, negint, text, empty-text, long-text, text-digits
+}
+
+func checkC06Dup(c c06DupCase) error {
+	lab := map[string][]byte{"int": {0x18, 0x63}, "negint": {0x38, 0x63}, "text": {0x61, 'a'}, "empty-text": {0x60}, "text-digits": {0x61, '4'},
+		"long-text": append([]byte{0x78, 0x20}, bytes.Repeat([]byte{'l'}, 32)...)}[c.Label]
+	m := append([]byte{0xa2}, lab...)
+	m = append(m, 0x01)
+	m = append(m, lab...)
+	m = append(m, 0x02)
+	empty := []byte{0xa0}
+	prot := func(b []byte) []byte { return rc.Encode(rc.Bytes(b), nil) }
+	p, u := []byte{0x40}, empty
+	if c.Bucket == "P" {
+		p = prot(m)
+	} else {
+		u = m
+	}
+	layer3 := func(p, u []byte) []byte {
+		w := append([]byte{0x83}, p...)
+		w = append(w, u...)
+		return append(w, 0x41, 0x01)
+	}
+	var kind refcose.Kind
+	var w []byte
+	switch c.Layer {
+	case "sign1", "untagged":
+		kind = refcose.KSign1
+		w = append([]byte{0xd2, 0x84}, p...)
+		w = append(w, u...)
+		w = append(w, 0x41, 0x70, 0x41, 0x01)
+		if c.Layer == "untagged" {
+			kind, w = refcose.KSign1Untagged, w[1:]
+		}
+	case "sign-body":
+		kind = refcose.KSign
+		w = append([]byte{0xd8, 0x62, 0x84}, p...)
+		w = append(w, u...)
+		w = append(w, 0x41, 0x70, 0x81)
+		w = append(w, layer3([]byte{0x40}, empty)...)
+	case "signer":
+		kind = refcose.KSign
+		w = append([]byte{0xd8, 0x62, 0x84, 0x40, 0xa0, 0x41, 0x70, 0x81}, layer3(p, u)...)
+	case "countersignature":
+		kind, w = refcose.KCountersignature, layer3(p, u)
+	case "nested-countersignature":
+		kind = refcose.KSign1
+		w = append([]byte{0xd2, 0x84, 0x40, 0xa1, 0x0b}, layer3(p, u)...)
+		w = append(w, 0x41, 0x70, 0x41, 0x01)
+	case "protected":
+		kind, w = refcose.KProtected, prot(m)
+	case "unprotected":
+		kind, w = refcose.KUnprotected, m
+	case "key":
+		kind = -1
+		w = append([]byte{0xa4, 0x01, 0x04, 0x20, 0x41, 0x01}, m[1:]...)
+	}
+	var err error
+	if kind == -1 {
+		var k cose.Key
+		err = k.UnmarshalCBOR(w)
+	} else {
+		_, err = decodeAny(kind, w)
+	}
+	if err == nil {
+		return finding("accepted-duplicate-label", "%+v: a map with a repeated label is accepted\n%x", c, w)
+	}
+	_ = err.Error()
+	_ = fmt.Sprintf("%v %+v %q", err, err, err)
+	stats.Class("duplicate-label-refused/" + c.Label)
+	return nil
+}
+
+func init() { register("c06dup", checkC06Dup) }
+
+func TestC06_DuplicateLabels(t *testing.T) {
+	begin(t, "C06", "duplabels")
+	n := 0
+	for _, layer := range []string{"sign1", "untagged", "sign-body", "signer", "countersignature", "nested-countersignature", "key", "protected", "unprotected"} {
+		for _, bucket := range []string{"P", "U"} {
+			if (layer == "protected" && bucket == "U") || (layer == "unprotected" && bucket == "P") || (layer == "key" && bucket == "U") {
+				continue
+			}
+			for _, label := range []string{"int", "negint", "text", "empty-text", "long-text", "text-digits"} {
+				c := c06DupCase{Layer: layer, Bucket: bucket, Label: label}
+				n++
+				stats.Eval()
+				stats.NTBytes([]byte(fmt.Sprint(c)))
+				judge(t, "c06dup", c, checkC06Dup)
+			}
+		}
+	}
+	stats.ExhaustivePart("duplicate label x spelling x bucket x layer", n)
 }
